@@ -19,11 +19,11 @@ from .. import custom, gen, model as M, refmodel as R
 
 RULE = ("cases from rng(seed, 14, 0, i): a file of 5..60 lines mixing all 10 supported line types (+2 registered custom types) in a legal order, ids from hostile classes, "
         "numbers rendered in every format float() accepts (repr, %.17e, +/-, leading zeros, '.5', '5.', underscores, E+0), 1-5 spaces between fields, trailing spaces, "
-        "LF/CRLF, interleaved junk (comments, FIX lines, wrong-case tags, tag+tab, leading space, unknown tags) and blank lines; parameter ids redefined / several ids. "
+        "LF/CRLF, interleaved junk (comments, FIX lines, wrong-case tags, tag+tab, leading space, unknown tags, lines containing VT/FF/FS/GS/RS/NEL/LS/PS characters followed by a valid-looking record) and blank lines; parameter ids redefined / several ids. "
         "distinct = fingerprint of the file text; non-trivial = >= 3 supported line types and >= 1 junk line.")
 REQ = ["eval:objects-match-tokenizer", "eval:warnings-match-junk-lines", "eval:junk-removal-changes-nothing", "eval:entry-points-agree", "eval:custom-types-claim-own-lines", "eval:reload-after-another-file-identical",
        "line:VERTEX_SE2", "line:VERTEX_SE3:QUAT", "line:VERTEX_XY", "line:VERTEX_TRACKXYZ", "line:EDGE_SE2", "line:EDGE_SE3:QUAT", "line:EDGE_SE2_XY", "line:EDGE_SE3_TRACKXYZ",
-       "line:PARAMS_SE2OFFSET", "line:PARAMS_SE3OFFSET", "class:crlf", "class:several_param_ids", "class:junk:tag_tab", "class:junk:leading_space", "class:junk:wrong_case", "class:information_all_zero", "class:duplicate_edge_line"]
+       "line:PARAMS_SE2OFFSET", "line:PARAMS_SE3OFFSET", "class:crlf", "class:several_param_ids", "class:junk:tag_tab", "class:junk:leading_space", "class:junk:wrong_case", "class:junk:control_chars", "eval:loaded-objects-independent", "class:information_all_zero", "class:duplicate_edge_line"]
 PLAN = {
     "quick": {"cases": 1500, "soft_s": 70, "min_nontrivial": 400, "require": REQ},
     "thorough": {"cases": 80000, "soft_s": 1300, "min_nontrivial": 20000, "require": REQ},
@@ -96,7 +96,19 @@ JUNK = {
     "prefix_of_tag": lambda rng: "VERTEX_SE2X 1 2 3 4",
     "text": lambda rng: "hello world",
     "tag_only": lambda rng: "EDGE_SE2",
+    # characters that some line-splitting routines (str.splitlines) treat as line boundaries but a text file does not: the line stays one junk line
+    "control_chars": lambda rng: "# note" + str(rng.choice(CONTROL)) + "VERTEX_XY %d 1 1" % (9000 + int(rng.integers(100))),
+    "control_chars_mid_text": lambda rng: "hello" + str(rng.choice(CONTROL)) + "EDGE_SE2 1 2 0 0 0 1 0 0 1 0 1",
 }
+CONTROL = ["\x0b", "\x0c", "\x1c", "\x1d", "\x1e"]
+try:
+    import locale as _locale
+
+    "\x85\u2028\u2029".encode(_locale.getpreferredencoding(False))
+    if _locale.getpreferredencoding(False).lower().replace("-", "") == "utf8":
+        CONTROL += ["\x85", "\u2028", "\u2029"]
+except Exception:  # noqa: BLE001
+    pass
 
 
 def gen_file(rng, ctx, with_custom):
@@ -378,6 +390,23 @@ def run_case(ctx, i, rng):
             ctx.check("objects-match-tokenizer", False, dict(feats, exception=type(ex).__name__), {"message": str(ex)[:300]}, case)
             return
         compare_loaded(ctx, g, verts, edges, params, feats, case)
+        # the loaded objects are independent of each other and of later loads: every edge's numbers are scaled in place by their own factor
+        try:
+            gm, _ = load_with_log(M.Graph.from_g2o, path, custom_edge_types=ctypes if with_custom else None)
+            before = [np.array(e.information, dtype=float, copy=True) for e in gm._edges]
+            for j, e in enumerate(gm._edges):
+                e.information *= float(j + 2)
+            indep = all(np.array_equal(np.asarray(e.information), before[j] * float(j + 2), equal_nan=True) for j, e in enumerate(gm._edges))
+            vb = [list(M.fl(v.pose)) for v in gm._vertices]
+            for j, v in enumerate(gm._vertices):
+                v.pose[0] = float(j) + 0.5
+            indep = indep and all(M.fl(v.pose)[1:] == vb[j][1:] and M.fl(v.pose)[0] == float(j) + 0.5 for j, v in enumerate(gm._vertices)
+                                  if all(math.isfinite(x) for x in vb[j]))
+            g_after, _ = load_with_log(M.Graph.from_g2o, path, custom_edge_types=ctypes if with_custom else None)
+            ctx.check("loaded-objects-independent", indep and graph_signature(g_after) == graph_signature(g), feats,
+                      {"in_place_edits_stay_local": bool(indep), "later_load_unaffected": graph_signature(g_after) == graph_signature(g)}, case)
+        except Exception as ex:  # noqa: BLE001
+            ctx.check("loaded-objects-independent", False, dict(feats, exception=type(ex).__name__), {"message": str(ex)[:300]}, case)
         warned = [r.getMessage() for r in recs if r.levelno >= logging.WARNING]
         okw = len(warned) == len(junk) and all(j in w for j, w in zip(junk, warned))
         ctx.check("warnings-match-junk-lines", okw, feats, {"expected_junk": junk[:5], "warnings": warned[:5], "n": [len(junk), len(warned)]}, case)
